@@ -79,6 +79,10 @@ def execute_case(prop, sub, case, report, counting=True):
     from vf.core import Mismatch, Skip, case_hash
     from vf import findings
     label = None
+    # process-wide numeric state a previous case may have left behind (numpy error handling) is reset: every case is judged
+    # from the default state, and a check that wants to see such a leak exercises the history inside one case
+    import numpy as _np
+    _np.seterr(divide="warn", over="warn", under="ignore", invalid="warn")
     try:
         label = sub.fn(case)
     except Skip as s:
